@@ -665,6 +665,7 @@ func (e *Engine) execInstr(st *State, instr ssa.Instruction) {
 			}
 		case token.ARROW:
 			e.abstracted["channel receive (fresh value)"] = true
+			e.cancelCheck(st, in, "receive", in.X, in.Pos())
 			if in.CommaOk {
 				tp := in.Type().(*types.Tuple)
 				set(in, Val{K: KTuple, F: []Val{st.freshVal(tp.At(0).Type(), "recv"), st.freshVal(tp.At(1).Type(), "recvok")}})
@@ -895,9 +896,11 @@ func (e *Engine) execInstr(st *State, instr ssa.Instruction) {
 	case *ssa.Next:
 		e.next(st, in)
 	case *ssa.Select:
+		e.cancelCheckSelect(st, in)
 		e.selectOp(st, in)
 	case *ssa.Send:
 		e.abstracted["channel send (no effect modelled)"] = true
+		e.cancelCheck(st, in, "send", in.Chan, in.Pos())
 	case *ssa.SliceToArrayPointer:
 		x := st.operand(in.X)
 		set(in, Val{K: KAddr, T: "(elem " + x.Base + " " + x.Off + ")", Root: x.Root})
@@ -1178,4 +1181,65 @@ func (e *Engine) convert(st *State, x Val, from, to types.Type, pos token.Pos) V
 	}
 	e.unsupported("convert %v -> %v", from, to)
 	return st.freshVal(to, "conv")
+}
+
+
+// ---------- cancellable: blocking channel operations must be interruptible by the context ----------
+
+func isDoneOf(v ssa.Value, ctxName string, fn *ssa.Function) bool {
+	c, ok := v.(*ssa.Call)
+	if !ok || !c.Call.IsInvoke() || c.Call.Method.Name() != "Done" {
+		return false
+	}
+	x := c.Call.Value
+	for i := 0; i < 4; i++ {
+		switch y := x.(type) {
+		case *ssa.ChangeInterface:
+			x = y.X
+			continue
+		case *ssa.MakeInterface:
+			x = y.X
+			continue
+		}
+		break
+	}
+	if p, ok := x.(*ssa.Parameter); ok && p.Name() == ctxName {
+		return true
+	}
+	if fv, ok := x.(*ssa.FreeVar); ok && fv.Name() == ctxName {
+		return true
+	}
+	return false
+}
+
+func (e *Engine) cancelCheck(st *State, in ssa.Instruction, what string, ch ssa.Value, pos token.Pos) {
+	if len(st.frames) != 1 {
+		return
+	}
+	fc := st.frames[0].contract
+	if fc == nil || fc.Cancellable == "" {
+		return
+	}
+	if isDoneOf(ch, fc.Cancellable, st.frames[0].fn) {
+		return
+	}
+	st.addCheck(&Check{Name: fmt.Sprintf("%s.cancellable.%s@%s", e.curFunc, what, shortPos(posStr(e, pos))), Kind: "cancellable", Goal: "false", Pos: posStr(e, pos), Tags: fc.CancelTags, Func: e.curFunc,
+		Clause: "cancellable " + fc.Cancellable + ": a blocking channel " + what + " outside a select that also receives from " + fc.Cancellable + ".Done()"})
+}
+
+func (e *Engine) cancelCheckSelect(st *State, in *ssa.Select) {
+	if len(st.frames) != 1 || !in.Blocking {
+		return
+	}
+	fc := st.frames[0].contract
+	if fc == nil || fc.Cancellable == "" {
+		return
+	}
+	for _, s := range in.States {
+		if s.Dir == types.RecvOnly && isDoneOf(s.Chan, fc.Cancellable, st.frames[0].fn) {
+			return
+		}
+	}
+	st.addCheck(&Check{Name: fmt.Sprintf("%s.cancellable.select@%s", e.curFunc, shortPos(posStr(e, in.Pos()))), Kind: "cancellable", Goal: "false", Pos: posStr(e, in.Pos()), Tags: fc.CancelTags, Func: e.curFunc,
+		Clause: "cancellable " + fc.Cancellable + ": a blocking select without an arm receiving from " + fc.Cancellable + ".Done()"})
 }
